@@ -75,13 +75,25 @@ where
                 let mut v_left = self.eval_const(left)?;
                 let mut v_right = self.eval_const(right)?;
                 if matches!(*op, Operator::And | Operator::Or) {
-                    // like the interpreter, AND and OR convert their operands to INTEGER first
-                    v_left = v_left
-                        .cast(TypeQualifier::PercentInteger)
-                        .map_err(|e| e.at(left))?;
-                    v_right = v_right
-                        .cast(TypeQualifier::PercentInteger)
-                        .map_err(|e| e.at(right))?;
+                    // like the interpreter, AND and OR convert their operands to INTEGER first,
+                    // or to LONG if one of them does not fit an INTEGER
+                    match (
+                        v_left.clone().cast(TypeQualifier::PercentInteger),
+                        v_right.clone().cast(TypeQualifier::PercentInteger),
+                    ) {
+                        (Ok(l), Ok(r)) => {
+                            v_left = l;
+                            v_right = r;
+                        }
+                        _ => {
+                            v_left = v_left
+                                .cast(TypeQualifier::AmpersandLong)
+                                .map_err(|e| e.at(left))?;
+                            v_right = v_right
+                                .cast(TypeQualifier::AmpersandLong)
+                                .map_err(|e| e.at(right))?;
+                        }
+                    }
                 }
                 (match *op {
                     Operator::Less => v_left
